@@ -1257,6 +1257,10 @@ class H2Stream:
                 headers, hdr_validation_flags
             )
 
+        # Normalization and validation are lazy: run them to completion before
+        # the encoder sees any header, so that a header block that fails
+        # validation leaves the compression context untouched.
+        headers = list(headers)
         encoded_headers = encoder.encode(headers)
 
         # Slice into blocks of max_outbound_frame_size. The first frame may
